@@ -341,6 +341,7 @@ def recheck_retained(res):
 def run(ctx):
     res = core.Result()
     import random
+    H.set_spare(random.Random(ctx.seed * 104729 + ctx.shard))     # words the property gives no meaning to are not zeros
     H.set_clock(random.Random(ctx.seed * 7919 + ctx.shard))      # coarse time base: records may share a tick
     rng = ctx.rng
     faults(res, ctx, rng)
